@@ -599,7 +599,7 @@ class C20(Prop):
             'calls of check_auth and basic_auth/digest_auth and to a controller using the documented idiom in the HTTP rig, '
             'judged by an independent RFC 2617 verifier reading the header text; session: 2-5 requests differing in cookie '
             '(17 variants built from earlier issued sids), address and user agent; vhost: full product gateways x remote ip x '
-            'Host x X-Forwarded-Host x path (enumerated). non-trivial = (auth) header that parses as a Basic/Digest credential '
+            'Host (incl. absent, HTTP/1.0) x X-Forwarded-Host x path (enumerated). non-trivial = (auth) header that parses as a Basic/Digest credential '
             'naming a user and must be refused, (session) an issued sid presented from a different fingerprint, (vhost) named '
             'gateways and a forwarded host, mapping elsewhere than Host, from an untrusted address; distinct = spec hash')
     assumptions = ('Digest nonce freshness/replay and equality of the uri directive with the request line are not asserted',
